@@ -29,6 +29,16 @@ CHECKS = {
          "tables_ref writer byte-identical to qha's save_x_tp (selftest); spline error bound from the analytic derivatives", "exhaustive enumeration of request positions/layouts through the real CLI, oracle = analytic table functions", "6 C19"),
  "C20": ("evec_sort: all n! permutations x all 4^n phase vectors x 5 unitary bases x 7 perturbation kinds x 3 containers for n=2..4 (n=5 thorough), cyclic shifts and transpositions for n=12, 60; arbitrary orthonormal pairs incl. exact-zero overlaps for the 'always a permutation' clause; all 242 off-by-one dimension mismatches; disp2eig over bases x masses x scalings x shapes; evec_load over n_q x n_p with a distinct number in every slot",
          "deterministic unitary bases and perturbations (no randomness); matdyn writer byte-identical to the shipped test files (selftest)", "exhaustive enumeration of permutations x phase vectors (bounded n) on the implementation", "6 C20"),
+ "C07": ("complete product of 9 crystal-system tensor shapes x 3 magnitudes x zero-extras x 2 grids x 3 cell masses x 2 key orders on a duck calculator driving the real _calculate_compliances / CijVolumeBaseInterface, plus 24 real Calculators; at every positive-definite grid point K/G Voigt, Reuss, Hill vs C_iijj, C_ijij, S_iijj, S_ijij of the full fourth-rank tensor, bounds, s*c=1, rho v^2 identities in SI",
+         "tensor_ref (rotational invariants selftest); CODATA constants; stiffness values on the stated alphabets", "exhaustive enumeration of tensor-shape/grid/mass alphabets on the implementation, oracle = full fourth-rank tensor algebra", "6 C07"),
+ "C12": ("deviation lattice over 24 (method, admissible order) pairs x 10 system settings x 5 temperature grids (DT 0.5..500 K, T_MIN>=0) x 3 component sets x 3 spectra x shapes x lattice block, every configuration schema-validated and run through the real Calculator (<=2 deviations quick; full product of the 5 core dimensions thorough): dtype float64, finite isothermal everywhere, adiabatic where C_V>0 or T=0, averages/velocities where positive definite, zero gap at T=0, low-T limit",
+         "well-formed synthetic inputs; positive definiteness by Cholesky of the reported stiffness", "deviation-bounded / full-product exhaustive enumeration of valid configurations on the implementation", "6 C12"),
+ "C13": ("metamorphic exhaustive enumeration on 3 base data sets: all orders of q-points 2..n, mode orders (all n! thorough; generators quick), weight scales, static column orders (all for 3; transpositions+rotations+reversal for 9/13), upper case, static row orders and phonon volume-block orders (all 120 thorough); every re-presented run compared with the base run on every modulus on both grids and on K, G, v_p, V(T,P); volume-block reorder: same numbers or an error",
+         "equal to rounding = 1e-9 of scale; acoustic modes identified by position are not moved", "exhaustive enumeration of permutation groups (bounded size) as re-presentations of the same data, differential oracle", "6 C13"),
+ "C14": ("subprocess space: cij run under PYTHONHASHSEED {0,1,2}/{0..15,random} x 5 working-directory contents x 3 data sets, byte comparison with golden runs; history space: all valid operation sequences of depth <=3 (<=4 thorough) over {new A/B, read(x,p), write(x), fill, cfg} on real objects in long-lived workers + all 35 interleavings of two calculators' operation lists; every write byte-identical to golden, every read bit-identical to a fresh process and to itself, module-level state digests constant, fill idempotent",
+         "goldens from fresh interpreters; hash seeds and cwd contents are finite menus; pint caches excluded from the state digest", "history BFS over operation sequences + all order-preserving interleavings of two operation lists on the implementation; subprocess enumeration of hash seeds x cwd contents", "6 C14"),
+ "C15": ("complete product of 4 grids x 3 component sets x 2 bases: every keyword and alias of the writer rules written through the real ResultsWriter and re-read by an independent parser: file names, row/column labels on the requested grids in GPa / A^3, values = in-memory arrays in the documented unit, aliases byte-identical, adiabatic vs isothermal selection, one file per component, unit and file-name overrides, write_output() section handling",
+         "expected names/units transcribed from the documented table; CODATA unit factors", "exhaustive enumeration of keywords x bases x grids on the implementation, oracle = independent parser + in-memory results", "6 C15"),
  "C10": ("complete enumeration of the finite domain (81 tuples, 36 Voigt pairs, all spellings, 81x81 equality pairs, out-of-range neighbours) with the orbit graph explored by BFS; decides the property outright because the domain is finite",
          "reference orbits from voigt_ref (union of generator images); CPython hashing", "exhaustive enumeration of the finite index domain + BFS of the orbit graph against a reference quotient", "6 C10"),
 }
